@@ -1,6 +1,8 @@
 // Package c05: no tokens or token metadata without client authentication and a registered grant (property C05).
 //
-// A case is one cell of the product  registration x credential presentation x grant_type x endpoint x provider flags x router.
+// A case is one cell of the product  registration x credential presentation x grant_type x endpoint x provider flags x router,
+// optionally preceded by a history (earlier requests on the same provider instance, a second provider instance in the same
+// process, a registration change; history_test.go).
 // Every request carries otherwise VALID grant material (a live code with its PKCE verifier and redirect URI, a live refresh
 // token, an approved device code, a live subject token, a genuine grant assertion, a live access token for introspection /
 // revocation) that belongs to the client the request names, so that client authentication and grant registration are the only
@@ -38,6 +40,9 @@ type Reg struct {
 	// StoredSecret: the storage also holds (and accepts) a secret for a client whose registered method is private_key_jwt or none,
 	// e.g. left over from an earlier registration. Presenting it is "a credential of the wrong kind" for a private_key_jwt client.
 	StoredSecret bool `json:"stored_secret,omitempty"`
+	// Absent: there is no registration under this id at the time of the request (deleted before / registered only after it).
+	// Never generated directly: derived from the history (History.Change) for the request at hand.
+	Absent bool `json:"absent,omitempty"`
 }
 
 // Flags are the provider configuration flags and storage capabilities.
@@ -51,8 +56,8 @@ type Flags struct {
 }
 
 type Case struct {
-	ErrStyle string `json:"err_style,omitempty"` // how the storage words its own refusals (vkit.Store.refuse)
-	Router         string `json:"router"` // provider | legacy
+	ErrStyle       string `json:"err_style,omitempty"` // how the storage words its own refusals (vkit.Store.refuse)
+	Router         string `json:"router"`              // provider | legacy
 	Flags          Flags  `json:"flags"`
 	Reg            Reg    `json:"reg"`
 	Endpoint       string `json:"endpoint"`                  // token | introspection | revocation | device_authorization
@@ -64,6 +69,8 @@ type Case struct {
 	TokenKind      string `json:"token_kind,omitempty"`      // revocation: access | refresh
 	Hint           string `json:"hint,omitempty"`            // revocation: token_type_hint
 	Fault          string `json:"fault,omitempty"`           // storage fault during the request: client-lookup | secret-check | key-lookup (+ ":partial")
+	// Hist: what happened in the process before this request (see history_test.go); nil = a fresh provider sees this one request
+	Hist *History `json:"hist,omitempty"`
 }
 
 const (
@@ -131,6 +138,7 @@ func rightPres(m string) string {
 
 func genCase(t *rapid.T) Case {
 	c := genCase0(t)
+	genHist(t, &c)
 	// drawn last so that the rest of the case does not depend on it
 	if rapid.Bool().Draw(t, "errstyled") {
 		c.ErrStyle = rapid.SampledFrom(vkit.ErrStyles).Draw(t, "errstyle")
@@ -245,6 +253,8 @@ func authClass0(c Case) authVerdict {
 		return authVerdict{clsBad, "unknown-client"}
 	case p == "nothing":
 		return authVerdict{clsBad, "no-client"}
+	case r.Absent:
+		return authVerdict{clsBad, "unknown-client"}
 	case p == "none":
 		if m == mNone {
 			return authVerdict{clsOK, "public"}
@@ -370,6 +380,8 @@ func judge(c Case) verdict {
 			switch {
 			case c.GrantAssertion != "right":
 				refuse = append(refuse, "bad-grant-assertion:"+c.GrantAssertion)
+			case r.Absent:
+				refuse = append(refuse, "unknown-client")
 			case !r.HasKeys:
 				refuse = append(refuse, "grant-assertion-without-registered-key")
 			default:
@@ -472,97 +484,82 @@ func clientIDs(r Reg) (id, secret string) {
 	return
 }
 
-func buildClients(c Case) (x, z *vkit.ClientSpec, guess string) {
-	id, secret := clientIDs(c.Reg)
-	x = &vkit.ClientSpec{ID: id, AppType: c.Reg.AppType, AuthMethod: c.Reg.AuthMethod, GrantTypes: c.Reg.Grants,
-		ResponseTypes: []string{"code"}, RedirectURIs: []string{redirect}, Service: c.Reg.Service}
-	// a secret is stored for the secret-based methods, and for private_key_jwt / public clients only when StoredSecret says so
-	if c.Reg.AuthMethod == mBasic || c.Reg.AuthMethod == mPost || c.Reg.StoredSecret {
-		x.Secret = secret
-	}
-	if c.Reg.HasKeys {
-		x.Keys = map[string]string{"kx": "rsa2"}
-	}
-	z = &vkit.ClientSpec{ID: otherID, Secret: "secret-z", AppType: "web", AuthMethod: mBasic, ResponseTypes: []string{"code"},
-		RedirectURIs: []string{redirect}, Keys: map[string]string{"kz": "rsa3"}}
-	return x, z, secret
-}
-
 func assertion(iss, sub, aud, kid, key string, iat, exp time.Time) string {
 	return vkit.AssertionWith(iss, sub, []string{aud}, kid, key, iat, exp, nil)
 }
 
-func mkAssertion(kind string, x *vkit.ClientSpec, now time.Time) string {
+// mkAssertion: an assertion of kind for the named client n (o = the other registered client).
+func mkAssertion(kind string, n, o party, now time.Time) string {
 	iat, exp := now.Add(-5*time.Second), now.Add(5*time.Minute)
 	switch kind {
 	case "wrongkey":
-		return assertion(x.ID, x.ID, issuer, "kx", "rsa4", iat, exp)
+		return assertion(n.id, n.id, issuer, n.kid, n.wrongKey, iat, exp)
 	case "unknownkid":
-		return assertion(x.ID, x.ID, issuer, "nope", "rsa2", iat, exp)
+		return assertion(n.id, n.id, issuer, "nope", n.key, iat, exp)
 	case "otheriss":
-		return assertion(otherID, otherID, issuer, "kx", "rsa2", iat, exp)
+		return assertion(o.id, o.id, issuer, n.kid, n.key, iat, exp)
 	case "expired":
-		return assertion(x.ID, x.ID, issuer, "kx", "rsa2", now.Add(-10*time.Minute), now.Add(-5*time.Minute))
+		return assertion(n.id, n.id, issuer, n.kid, n.key, now.Add(-10*time.Minute), now.Add(-5*time.Minute))
 	case "wrongaud":
-		return assertion(x.ID, x.ID, "https://other-op.example.com", "kx", "rsa2", iat, exp)
+		return assertion(n.id, n.id, "https://other-op.example.com", n.kid, n.key, iat, exp)
 	case "subneq":
-		return assertion(x.ID, otherID, issuer, "kx", "rsa2", iat, exp)
+		return assertion(n.id, o.id, issuer, n.kid, n.key, iat, exp)
 	case "ghost":
-		return assertion(ghostID, ghostID, issuer, "kx", "rsa2", iat, exp)
+		return assertion(ghostID, ghostID, issuer, n.kid, n.key, iat, exp)
 	}
-	return assertion(x.ID, x.ID, issuer, "kx", "rsa2", iat, exp)
+	return assertion(n.id, n.id, issuer, n.kid, n.key, iat, exp)
 }
 
-// applyCred adds the presentation to form / header.
-func applyCred(c Case, x, z *vkit.ClientSpec, guess string, form url.Values, hdr http.Header, now time.Time) {
-	secret := guess // what the caller believes the secret to be (the stored one when there is one)
+// applyCred adds the presentation to form / header. n is the client the request names as a caller who knows the registration
+// in force sees it (n.secret = the secret in force or, when none is stored, what the caller believes it to be), o the other client.
+func applyCred(c Case, n, o party, form url.Values, hdr http.Header, now time.Time) {
 	var cr vkit.Cred
 	switch c.Pres {
 	case "nothing":
 		return
 	case "none":
-		cr = vkit.Cred{Kind: "none", ClientID: x.ID}
+		cr = vkit.Cred{Kind: "none", ClientID: n.id}
 	case "basic-right":
-		cr = vkit.Cred{Kind: "basic", ClientID: x.ID, Secret: secret}
+		cr = vkit.Cred{Kind: "basic", ClientID: n.id, Secret: n.secret}
 	case "basic-raw":
-		cr = vkit.Cred{Kind: "basic", ClientID: x.ID, Secret: secret, NoEscape: true}
+		cr = vkit.Cred{Kind: "basic", ClientID: n.id, Secret: n.secret, NoEscape: true}
 	case "basic-wrong":
-		cr = vkit.Cred{Kind: "basic", ClientID: x.ID, Secret: secret + "x"}
+		cr = vkit.Cred{Kind: "basic", ClientID: n.id, Secret: n.wrongSecret}
 	case "basic-other":
-		cr = vkit.Cred{Kind: "basic", ClientID: x.ID, Secret: z.Secret}
+		cr = vkit.Cred{Kind: "basic", ClientID: n.id, Secret: o.secret}
 	case "basic-empty":
-		cr = vkit.Cred{Kind: "basic", ClientID: x.ID, Secret: ""}
+		cr = vkit.Cred{Kind: "basic", ClientID: n.id, Secret: ""}
 	case "basic-wrong-raw":
-		cr = vkit.Cred{Kind: "basic", ClientID: "client-x", Secret: "%zz-wrong", NoEscape: true}
+		cr = vkit.Cred{Kind: "basic", ClientID: n.id, Secret: "%zz-wrong", NoEscape: true}
 		if c.Reg.Special {
-			cr.ClientID = url.QueryEscape(x.ID)
+			cr.ClientID = url.QueryEscape(n.id)
 		}
 	case "basic-malformed":
-		cr = vkit.Cred{Kind: "rawbasic", Raw: "Basic !!!not-base64!!!", BodyID: x.ID}
+		cr = vkit.Cred{Kind: "rawbasic", Raw: "Basic !!!not-base64!!!", BodyID: n.id}
 	case "post-right":
-		cr = vkit.Cred{Kind: "post", ClientID: x.ID, Secret: secret}
+		cr = vkit.Cred{Kind: "post", ClientID: n.id, Secret: n.secret}
 	case "post-wrong":
-		cr = vkit.Cred{Kind: "post", ClientID: x.ID, Secret: secret + "x"}
+		cr = vkit.Cred{Kind: "post", ClientID: n.id, Secret: n.wrongSecret}
 	case "post-other":
-		cr = vkit.Cred{Kind: "post", ClientID: x.ID, Secret: z.Secret}
+		cr = vkit.Cred{Kind: "post", ClientID: n.id, Secret: o.secret}
 	case "ghost-none":
 		cr = vkit.Cred{Kind: "none", ClientID: ghostID}
 	case "ghost-basic":
-		cr = vkit.Cred{Kind: "basic", ClientID: ghostID, Secret: secret}
+		cr = vkit.Cred{Kind: "basic", ClientID: ghostID, Secret: n.secret}
 	case "ghost-post":
-		cr = vkit.Cred{Kind: "post", ClientID: ghostID, Secret: secret}
+		cr = vkit.Cred{Kind: "post", ClientID: ghostID, Secret: n.secret}
 	case "ghost-assert":
-		cr = vkit.Cred{Kind: "assertion", Assertion: mkAssertion("ghost", x, now)}
+		cr = vkit.Cred{Kind: "assertion", Assertion: mkAssertion("ghost", n, o, now)}
 	case "assert-badtype":
-		cr = vkit.Cred{Kind: "assertion", Assertion: mkAssertion("right", x, now)}
+		cr = vkit.Cred{Kind: "assertion", Assertion: mkAssertion("right", n, o, now)}
 	default:
-		cr = vkit.Cred{Kind: "assertion", Assertion: mkAssertion(strings.TrimPrefix(c.Pres, "assert-"), x, now)}
+		cr = vkit.Cred{Kind: "assertion", Assertion: mkAssertion(strings.TrimPrefix(c.Pres, "assert-"), n, o, now)}
 	}
 	switch c.BodyID {
 	case "same":
-		cr.BodyID = x.ID
+		cr.BodyID = n.id
 	case "other":
-		cr.BodyID = otherID
+		cr.BodyID = o.id
 	case "ghost":
 		cr.BodyID = ghostID
 	}
@@ -572,9 +569,6 @@ func applyCred(c Case, x, z *vkit.ClientSpec, guess string, form url.Values, hdr
 	}
 }
 
-// primaryReason picks the reason a violation is filed under (the fingerprint): authentication reasons first, then the
-// grant reasons. Registrations that combine a credentialed auth method with a non-web application type get one class of
-// their own for the "no / wrong credential" family, because whether such clients must authenticate is one decision.
 func primaryReason(c Case, reasons []string) string {
 	rank := func(r string) int {
 		switch {
@@ -621,6 +615,21 @@ func where(c Case) string {
 	return c.Grant
 }
 
+// request: one HTTP request to one provider, with valid grant material of its own, judged by the per-request oracle.
+type request struct {
+	site       *site
+	c          Case   // the request as a history-free case: Reg = the registration of the named client in force at this time on this provider
+	n, o       party  // the client the request names, and the other one
+	prefix     string // "" for the request under test
+	final      bool   // the request under test: labels / key / info go into the result
+	beforeSend func() // registration change that takes effect after the grant material exists
+}
+
+type outcome struct {
+	served bool
+	v      int
+}
+
 func run(c Case) (res *vkit.Result) {
 	res = &vkit.Result{}
 	defer func() {
@@ -633,48 +642,103 @@ func run(c Case) (res *vkit.Result) {
 			}
 		}
 	}()
+	primary := c.newSite("", c.Router, false)
+	var log []stepOutcome
+	if h := c.Hist; h != nil {
+		var second *site
+		if h.Second != "" {
+			second = c.newSite("second", h.Second, true)
+		}
+		for i, s := range h.Prelude {
+			on, onSecond := primary, false
+			if s.On == "second" && second != nil {
+				on, onSecond = second, true
+			}
+			other, where := "z", "the same provider"
+			if s.Who == "z" {
+				other = "x"
+			}
+			if onSecond {
+				where = "the second provider"
+			}
+			rq := request{site: on, n: c.party(s.Who, on.alt), o: c.party(other, on.alt),
+				prefix: fmt.Sprintf("(prelude request %d of %d, on %s, naming client %s) ", i+1, len(h.Prelude), where, s.Who),
+				c: Case{ErrStyle: c.ErrStyle, Router: on.router, Flags: c.Flags, Reg: c.regAt(s.Who, onSecond, false), Endpoint: s.Endpoint, Grant: s.Grant,
+					Pres: s.Pres, ParamsIn: "body", GrantAssertion: s.GrantAssertion, TokenKind: s.TokenKind}}
+			o := rq.do(res)
+			if o == nil {
+				return res
+			}
+			log = append(log, stepOutcome{s, o.served, o.v})
+		}
+	}
+	tc := c
+	tc.Hist = nil
+	tc.Reg = c.regAt("x", false, true)
+	rq := request{site: primary, c: tc, n: c.party("x", false), o: c.party("z", false), final: true}
+	if c.Hist != nil {
+		if c.Hist.Change == "deleted" {
+			rq.beforeSend = func() { c.applyChange(primary) }
+		} else {
+			c.applyChange(primary)
+		}
+	}
+	if rq.do(res) == nil {
+		return res
+	}
+	histLabels(c, log, res)
+	if c.Hist != nil {
+		res.Key += "|" + histKey(c)
+	}
+	return res
+}
+
+func (rq *request) do(res *vkit.Result) *outcome {
+	c, x, z := rq.c, rq.n, rq.o
+	st, sut, ag := rq.site.st, rq.site.sut, rq.site.ag
+	rq.site.n++
 	t0 := time.Now()
 	ctx := context.Background()
-	x, z, guess := buildClients(c)
-	st := vkit.NewStore([]*vkit.ClientSpec{x, z}, vkit.SignKeySpec{KeyName: "rsa1", Alg: "RS256", KID: "sig1"}, vkit.StorePolicy{ErrStyle: c.ErrStyle})
-	spec := vkit.DefaultProviderSpec(c.Router)
-	spec.Post, spec.PKJWT, spec.Refresh = c.Flags.Post, c.Flags.PKJWT, c.Flags.Refresh
-	spec.Caps = vkit.Caps{CC: c.Flags.CC, TE: c.Flags.TE, Device: c.Flags.Device}
-	sut := vkit.MustBuild(spec, st)
-	ag := vkit.NewAgent(sut)
 	v := judge(c)
 	w := where(c)
+	label := func(l ...string) {
+		if rq.final {
+			res.Label(l...)
+		}
+	}
 
-	// ---- valid grant material owned by X ------------------------------------------------
+	// ---- valid grant material owned by the named client (placeholders when no such client is registered) -------
 	var m material
-	seed := &vkit.AuthReq{ID: "seed", ClientID: x.ID, UserID: "u1", Scopes: []string{"openid", "profile"}, IsDone: true,
+	seed := &vkit.AuthReq{ID: "seed", ClientID: x.id, UserID: "u1", Scopes: []string{"openid", "profile"}, IsDone: true,
 		AuthTime: t0.Add(-3 * time.Second).Truncate(time.Second), AMR: []string{"pwd"}}
 	needRefresh := (c.Endpoint == "token" && (c.Grant == vkit.GRefr || c.Grant == vkit.GTE)) || (c.Endpoint == "revocation" && c.TokenKind == "refresh")
 	needAccess := c.Endpoint == "introspection" || (c.Endpoint == "revocation" && c.TokenKind == "access")
 	switch {
+	case c.Reg.Absent:
+		m.code, m.deviceCode = "no-code", "no-device-code"
 	case c.Endpoint == "token" && c.Grant == vkit.GCode:
-		q := vkit.AuthParams(x, redirect, "code", "openid profile", "st", "n1")
+		q := vkit.AuthParams(st.Clients[x.id], redirect, "code", "openid profile", "st", "n1")
 		q.Set("code_challenge", vkit.S256(verifier))
 		q.Set("code_challenge_method", "S256")
 		fl := ag.RunAuth(q, "u1")
 		if fl.Code == "" {
-			res.Fail("C05:harness:no-code", "could not obtain a code for %+v: %s", x, fl.AuthResp.Describe())
-			return res
+			res.Fail("C05:harness:no-code", "%scould not obtain a code for %+v: %s", rq.prefix, st.Clients[x.id], fl.AuthResp.Describe())
+			return nil
 		}
 		m.code = fl.Code
 	case c.Endpoint == "token" && c.Grant == vkit.GDevice:
+		m.deviceCode = fmt.Sprintf("device-code-%d", rq.site.n)
 		ds := st.Shaped(vkit.FullCaps).(op.DeviceAuthorizationStorage)
-		if err := ds.StoreDeviceAuthorization(ctx, x.ID, "device-code-1", "USER-CODE", t0.Add(5*time.Minute), []string{"openid", "profile"}); err != nil || !st.ApproveDevice("device-code-1", "u1") {
-			res.Fail("C05:harness:no-device-code", "could not seed a device code: %v", err)
-			return res
+		if err := ds.StoreDeviceAuthorization(ctx, x.id, m.deviceCode, fmt.Sprintf("USER-CODE-%d", rq.site.n), t0.Add(5*time.Minute), []string{"openid", "profile"}); err != nil || !st.ApproveDevice(m.deviceCode, "u1") {
+			res.Fail("C05:harness:no-device-code", "%scould not seed a device code: %v", rq.prefix, err)
+			return nil
 		}
-		m.deviceCode = "device-code-1"
 	}
 	if needRefresh {
 		at, rt, _, err := st.CreateAccessAndRefreshTokens(ctx, seed, "")
 		if err != nil {
-			res.Fail("C05:harness:no-refresh-token", "%v", err)
-			return res
+			res.Fail("C05:harness:no-refresh-token", "%s%v", rq.prefix, err)
+			return nil
 		}
 		m.accessID, m.refresh = at, rt
 	}
@@ -685,12 +749,15 @@ func run(c Case) (res *vkit.Result) {
 			m.access, err = op.CreateBearerToken(at, "u1", sut.Provider.Crypto())
 		}
 		if err != nil {
-			res.Fail("C05:harness:no-access-token", "%v", err)
-			return res
+			res.Fail("C05:harness:no-access-token", "%s%v", rq.prefix, err)
+			return nil
 		}
 	}
+	if rq.beforeSend != nil {
+		rq.beforeSend()
+	}
 
-	// ---- the request under test ------------------------------------------------------------
+	// ---- the request ---------------------------------------------------------------------------
 	now := time.Now()
 	form := url.Values{}
 	hdr := http.Header{}
@@ -710,7 +777,7 @@ func run(c Case) (res *vkit.Result) {
 		case vkit.GCC:
 			form.Set("scope", "openid")
 		case vkit.GBearer:
-			form.Set("assertion", mkAssertion(c.GrantAssertion, x, now))
+			form.Set("assertion", mkAssertion(c.GrantAssertion, x, z, now))
 			form.Set("scope", "openid")
 		case vkit.GTE:
 			form.Set("subject_token", m.refresh)
@@ -732,7 +799,7 @@ func run(c Case) (res *vkit.Result) {
 	case "device_authorization":
 		form.Set("scope", "openid profile")
 	}
-	applyCred(c, x, z, guess, form, hdr, now)
+	applyCred(c, x, z, form, hdr, now)
 	target := path
 	switch c.ParamsIn {
 	case "query-grant":
@@ -750,7 +817,10 @@ func run(c Case) (res *vkit.Result) {
 	for id := range st.Tokens {
 		tokensBefore[id] = true
 	}
-	devicesBefore := len(st.Devices)
+	devicesBefore := map[string]bool{}
+	for dc := range st.Devices {
+		devicesBefore[dc] = true
+	}
 	if c.Fault != "" {
 		f := vkit.Fault{Kind: "error"}
 		name := c.Fault
@@ -799,11 +869,9 @@ func run(c Case) (res *vkit.Result) {
 			actedFor = append(actedFor, t.ClientID)
 		}
 	}
-	if len(st.Devices) > devicesBefore {
-		for dc, d := range st.Devices {
-			if dc != "device-code-1" {
-				actedFor = append(actedFor, d.State.ClientID)
-			}
+	for dc, d := range st.Devices {
+		if !devicesBefore[dc] {
+			actedFor = append(actedFor, d.State.ClientID)
 		}
 	}
 	sort.Strings(actedFor)
@@ -820,8 +888,12 @@ func run(c Case) (res *vkit.Result) {
 	reasons := strings.Join(v.Reasons, "+")
 	cell := fmt.Sprintf("%s:%s", c.Router, w)
 	desc := func() string {
-		return fmt.Sprintf("%s %s by client{method=%s app=%s grants=%v keys=%v service=%v stored_secret=%v} presenting %q (body client_id %q, params %s, flags %+v): %s",
-			c.Router, w, c.Reg.AuthMethod, c.Reg.AppType, c.Reg.Grants, c.Reg.HasKeys, c.Reg.Service, c.Reg.StoredSecret, c.Pres, c.BodyID, c.ParamsIn, c.Flags, resp.Describe())
+		reg := fmt.Sprintf("client{method=%s app=%s grants=%v keys=%v service=%v stored_secret=%v}", c.Reg.AuthMethod, c.Reg.AppType, c.Reg.Grants, c.Reg.HasKeys, c.Reg.Service, c.Reg.StoredSecret)
+		if c.Reg.Absent {
+			reg = "a client that is not registered at this time"
+		}
+		return fmt.Sprintf("%s%s %s by %s presenting %q (body client_id %q, params %s, flags %+v): %s",
+			rq.prefix, c.Router, w, reg, c.Pres, c.BodyID, c.ParamsIn, c.Flags, resp.Describe())
 	}
 
 	if resp.Panic != nil {
@@ -829,11 +901,12 @@ func run(c Case) (res *vkit.Result) {
 	}
 
 	// whoever was served: tokens / device codes are only ever issued to the client the credential names, never to a
-	// client_id that merely rides along in the form (that one is unknown or has no grant at all)
+	// client_id that merely rides along in the form (that one is unknown or has no grant at all) nor to the client an
+	// assertion signed with somebody else's key names
 	if resp.Success() {
 		for _, cid := range actedFor {
-			if cid != x.ID {
-				res.Fail("C05:acted-for-unauthenticated-client:"+cell, "the endpoint issued material to client %q which did not authenticate and is not registered for the grant: %s", cid, desc())
+			if cid != x.id {
+				res.Fail("C05:acted-for-unauthenticated-client:"+cell, "the endpoint issued material to client %q which did not authenticate (a client_id that merely rides along in the form has no grant at all): %s", cid, desc())
 			}
 		}
 	}
@@ -841,7 +914,7 @@ func run(c Case) (res *vkit.Result) {
 	switch {
 	case v.V < 0:
 		primary := primaryReason(c, v.Reasons)
-		res.Label("must-refuse", "refuse:"+primary, "refuse@"+w)
+		label("must-refuse", "refuse:"+primary, "refuse@"+w)
 		if resp.Panic == nil {
 			fp := "C05:accepted:" + cell + ":" + primary
 			switch {
@@ -860,11 +933,13 @@ func run(c Case) (res *vkit.Result) {
 		if c.Grant == vkit.GBearer {
 			how = "grant-assertion"
 		}
-		res.Label("must-accept", "accept:"+how, "accept@"+w)
+		label("must-accept", "accept:"+how, "accept@"+w)
 		if elapsed > time.Second {
 			// the device grant runs under a 4 s deadline inside the library; do not judge completeness on a stalled machine
-			res.Grey = true
-			res.Label("grey:slow-case")
+			if rq.final {
+				res.Grey = true
+			}
+			label("grey:slow-case")
 			break
 		}
 		if resp.Panic == nil {
@@ -874,7 +949,7 @@ func run(c Case) (res *vkit.Result) {
 			case "token":
 				ok = ok && resp.Str("access_token") != ""
 				what = "an access token"
-				if ok && (len(actedFor) == 0 || actedFor[0] != x.ID) {
+				if ok && (len(actedFor) == 0 || actedFor[0] != x.id) {
 					ok, what = false, "a token stored for the client"
 				}
 			case "introspection":
@@ -892,8 +967,14 @@ func run(c Case) (res *vkit.Result) {
 			}
 		}
 	default:
-		res.Grey = true
-		res.Label("grey", "grey:"+v.Reasons[0])
+		if rq.final {
+			res.Grey = true
+		}
+		label("grey", "grey:"+v.Reasons[0])
+	}
+	out := &outcome{served: resp.Success(), v: v.V}
+	if !rq.final {
+		return out
 	}
 
 	outcome := "refused"
@@ -923,7 +1004,7 @@ func run(c Case) (res *vkit.Result) {
 	res.Key = fmt.Sprintf("%s|%s|%s|web=%v|keys=%v|svc=%v|sp=%v|ss=%v|reg=%v|%+v|%s|%s|%s|%s|%s%s|%s|v=%d|%s", c.Router, w, c.Reg.AuthMethod, c.Reg.AppType == "web", c.Reg.HasKeys,
 		c.Reg.Service, c.Reg.Special, c.Reg.StoredSecret, registered, c.Flags, c.Pres, c.BodyID, c.ParamsIn, c.GrantAssertion, c.TokenKind, c.Hint, c.Fault, v.V, reasons)
 	res.Info = map[string]any{"verdict": v.V, "reasons": v.Reasons, "auth": v.Auth.reason, "status": resp.Status, "error": errCode, "material": found, "acted_for": actedFor}
-	return res
+	return out
 }
 
 var prop = vkit.Prop[Case]{
@@ -934,6 +1015,12 @@ var prop = vkit.Prop[Case]{
 		"x optional conflicting client_id form value x endpoint (token with grant_type in {6 grants, implicit, unknown, missing} / introspection / revocation / device_authorization) x parameters in body / URL / GET request " +
 		"x provider flags (post, private_key_jwt, refresh, client-credentials / token-exchange / device capability) x optional storage fault on client / secret / key lookup x router; every request carries valid grant material owned by the named client " +
 		"(live code + verifier + redirect_uri, live refresh token, approved device code, live subject token, genuine grant assertion, live token to introspect / revoke). " +
+		"About half of the cases add a HISTORY in front of that request: a generated registration for the other client (any auth method / grants; its key optionally registered under the SAME kid as the named client's, different key), " +
+		"a prelude of 0-3 earlier requests (either client x 11 endpoint/grant targets x any presentation, 60% the right one) on the same provider instance or on a SECOND provider instance (either router) of the same process whose storage " +
+		"holds an alternate registration of the same client ids (other secrets, other keys under the same kids, optionally another auth method), and a registration change on the provider under test between prelude and test " +
+		"(alternate registration replaced by the current one = secret rotated / key replaced under its kid / method changed; client deleted; client registered only now); with a prelude the presentation under test is re-drawn half of the time " +
+		"from the confusion family (no / partial credentials, the credential of the other registration of the same id, the other client's secret, an assertion naming the other client). Every prelude request is judged by the same oracle " +
+		"against the registration in force at its time on its provider; the request under test against the registration in force at its time. " +
 		"non-trivial = must-refuse cell with valid material, or must-accept cell with a presentation other than plain Basic; distinct = the product cell",
 	Gen: genCase,
 	Run: run,
